@@ -4,6 +4,7 @@ import (
 	"fmt"
 	"go/token"
 	"sort"
+	"strconv"
 	"strings"
 
 	"golang.org/x/tools/go/ssa"
@@ -59,6 +60,8 @@ func cacheAccepts() []gate.Gate {
 		ccHas("K.max-age", "max-age", true),
 		ccHas("K.s-maxage", "s-maxage", true),
 		gate.Cmp("K.status-cacheable", "alloc:[*]int[call:sort.SearchInts(alloc:[*]int,param:e.ResponseStatus)]", token.EQL, "param:e.ResponseStatus"),
+		// ... or a switch over the status (the constants are checked by TABLE:cacheable-status-codes)
+		gate.Cmp("K.status-cacheable", "param:e.ResponseStatus", token.EQL, "const:*"),
 		ccHas("K.public", "public", true),
 	}
 }
@@ -333,6 +336,16 @@ func policyTables(e *Env) {
 				got = a
 			}
 		}
+		if got == nil {
+			// the same set written as a switch over the status (ascending order is
+			// only needed by the binary search): compared in sorted order
+			got = switchConsts(ic, "param:e.ResponseStatus")
+			sort.Slice(got, func(i, j int) bool {
+				a, _ := strconv.Atoi(got[i])
+				b, _ := strconv.Atoi(got[j])
+				return a < b
+			})
+		}
 		ok := len(got) == len(specCacheableStatus)
 		for i := range got {
 			if !ok || got[i] != specCacheableStatus[i] {
@@ -352,6 +365,34 @@ func policyTables(e *Env) {
 // arrayFeedsMap: fn ranges over the array and inserts each element as key into
 // the map held by global.
 func arrayFeedsMap(fn *ssa.Function, arr, global string) bool {
+	// the set is built by a helper: global = newSet(arr[:]) where newSet inserts
+	// every element of its parameter as a key into the map it returns
+	for _, b := range fn.Blocks {
+		for _, in := range b.Instrs {
+			st, ok := in.(*ssa.Store)
+			if !ok || prov.Of(st.Addr) != global {
+				continue
+			}
+			c, ok := st.Val.(*ssa.Call)
+			if !ok || len(c.Call.Args) != 1 {
+				continue
+			}
+			h := c.Call.StaticCallee()
+			if h == nil || h.Blocks == nil || len(h.Params) != 1 {
+				continue
+			}
+			var src ssa.Value = c.Call.Args[0]
+			if sl, ok := src.(*ssa.Slice); ok {
+				src = sl.X
+			}
+			if al, ok := src.(*ssa.Alloc); !ok || allocArrayName(al) != arr {
+				continue
+			}
+			if helperBuildsSet(h) {
+				return true
+			}
+		}
+	}
 	for _, b := range fn.Blocks {
 		for _, in := range b.Instrs {
 			mu, ok := in.(*ssa.MapUpdate)
@@ -390,3 +431,54 @@ func globalHoldsMap(fn *ssa.Function, m ssa.Value, global string) bool {
 	}
 	return false
 }
+
+// helperBuildsSet: h returns a map it made itself, into which a loop over all
+// elements of h's slice parameter (range, or index loop from 0) inserts each
+// element as a key.
+func helperBuildsSet(h *ssa.Function) bool {
+	var ret ssa.Value
+	n := 0
+	for _, b := range h.Blocks {
+		if r, ok := b.Instrs[len(b.Instrs)-1].(*ssa.Return); ok && len(r.Results) == 1 {
+			ret = r.Results[0]
+			n++
+		}
+	}
+	if n != 1 {
+		return false
+	}
+	if _, ok := ret.(*ssa.MakeMap); !ok {
+		return false
+	}
+	p := prov.Of(h.Params[0])
+	for _, l := range loopsOver(h, p) {
+		if loopStart(l[0]) != 0 {
+			continue
+		}
+		// the body entry dominates a MapUpdate(ret, p[rangeidx]) and the loop has no other exit
+		for _, b := range h.Blocks {
+			if !l[1].Dominates(b) {
+				continue
+			}
+			for _, in := range b.Instrs {
+				if mu, ok := in.(*ssa.MapUpdate); ok && mu.Map == ret && prov.Of(mu.Key) == p+"[rangeidx]" && b == l[1] {
+					return true
+				}
+			}
+		}
+	}
+	// range over the slice: the key is the range value
+	for _, b := range h.Blocks {
+		for _, in := range b.Instrs {
+			if mu, ok := in.(*ssa.MapUpdate); ok && mu.Map == ret && (prov.Of(mu.Key) == p+"[rangeidx]" || prov.Of(mu.Key) == "rangeval("+p+")") {
+				if len(loopsOver(h, p)) == 1 && len(naturalLoops(h)) == 1 {
+					return true
+				}
+			}
+		}
+	}
+	return false
+}
+
+// allocArrayName: the name constArrays gives to an array literal.
+func allocArrayName(al *ssa.Alloc) string { return prov.Of(al) }
